@@ -162,7 +162,7 @@ pub fn run_cup(p: &Profile, cfg: &RunCfg) -> (RunOut, MonOut) {
         for e in 0..n {
             let key = format!("x#{e}");
             let mut w = lock(&world);
-            let mutation = w.draws.draw(&format!("{key}/mut"), 26);
+            let mutation = w.draws.draw(&format!("{key}/mut"), 27);
             // a handler is stateful in principle: sometimes the authentic exchange is verified
             // first and the tampered one right after it on the same handler
             let authentic_first = mutation != 0 && w.draws.draw(&format!("{key}/authentic_first"), 3) == 0;
@@ -367,6 +367,21 @@ pub fn run_cup(p: &Profile, cfg: &RunCfg) -> (RunOut, MonOut) {
                     }
                     breaking = None;
                     if mutation == 24 { "signature_padded".into() } else { "signature_prefixed".into() }
+                }
+                26 => {
+                    // a '0' high nibble written as '+' (a lenient integer parser reads "+2" as 2)
+                    if let Some(t) = etag.as_mut() {
+                        let start = if t.starts_with(b"W/\"") { 3 } else if t.starts_with(b"\"") { 1 } else { 0 };
+                        let c = colon.unwrap_or(t.len());
+                        // even offsets within either half that hold '0'
+                        let mut cands: Vec<usize> = (start..c).step_by(2).filter(|i| t[*i] == b'0').collect();
+                        cands.extend((c + 1..t.len()).step_by(2).filter(|i| t[*i] == b'0'));
+                        if !cands.is_empty() {
+                            let k = cands[w.draws.draw(&format!("{key}/plus.pos"), cands.len() as u64) as usize];
+                            t[k] = b'+';
+                        }
+                    }
+                    "hex_digit_plus_sign".into()
                 }
                 _ => {
                     // a further ':'-separated field appended to an authentic ETag (inside the wrapper)
